@@ -60,14 +60,20 @@ def tree_stream(tier):
     sub = [("L", b"A", False, 1), ("L", b"B", False, 2), ("L", b"NAME", False, 3), ("L", b"SW", False, 4), ("L", b"MANY", False, 5),
            ("L", b"BIG", False, 7), ("L", b"SWR", False, 8), ("L", b"HDRS", False, 9),
            ("B", b"CALCulate", False, [("B", b"SELected", True, [("B", b"MARKer", True, [("B", b"FUNCtion", True, [("B", b"RESult", True, [("B", b"DEEP", True, [("L", b"VALue", True, 10)])])])])])]),
-           ("B", b"CONFigure", False, [("L", b"ONLY", True, 11), ("B", b"SCALar", True, [("L", b"VOLTage", True, 12)])])]
+           ("B", b"CONFigure", False, [("L", b"ONLY", True, 11), ("B", b"SCALar", True, [("L", b"VOLTage", True, 12)])]),
+           # an ANONYMOUS default leaf (as Branch!{name => handler; ..} generates) beside a default branch: a handler that
+           # returns -113 itself must end the message, the unit is not dispatched a second time into the default branch
+           ("B", b"MEASure", False, [("L", b"", True, 13), ("B", b"SCALar", True, [("L", b"VOLTage", True, 14)])]),
+           # prefix family: the short form of an earlier sibling is a proper prefix of a later one's
+           ("L", b"CALibration", False, 15), ("L", b"SENSe", False, 16), ("L", b"SENSOr", False, 17)]
     sc = {1: (["r"], ["r", "di1"]), 2: (["o"], ["o", "di2"]), 3: (["r:chr"], ["r:chr", "di3"]),
           4: (["O", "O", "O"], ["O", "O", "di4"]),                       # swallows every parameter error and goes on
           5: (["o"] * many, ["o"] * many + ["di5"]),                    # pulls up to 300 parameters
           7: ([], ["di1"] * many),                                       # emits 300 data elements
           8: (["R", "O"], ["R", "di8"]),
           9: ([], ["h" + _hex(b"CONFIGURATION"), "h" + _hex(b"V"), "di1"]),
-          10: ([], ["di10"]), 11: ([], ["Fp-113"]), 12: ([], ["di12"])}
+          10: ([], ["di10"]), 11: ([], ["Fp-113"]), 12: ([], ["di12"]),
+          13: (["Fp-113"], ["Fp-113"]), 14: (["o"], ["o", "di14"]), 15: (["o"], ["di15"]), 16: (["o"], ["di16"]), 17: (["o"], ["di17"])}
     msgs = []
     for n in lens(tier):
         if n > 5000:          # the 16-bit limits: character data and suffix only (the Coq side reads the bytes as a list literal)
@@ -86,6 +92,8 @@ def tree_stream(tier):
     msgs += [b"BIG?", b"B?;BIG?", b"BIG?;B?", b"HDRS?", b"B?;HDRS?"]
     # default nodes nested several levels deep; default leaf beside a default branch
     msgs += [b"CALC?", b"CALC:SEL?", b"CALC:VAL?", b"CALC:DEEP?", b"CALC:SEL:MARK:FUNC:RES:DEEP:VAL?", b"CALC 1", b"B?;CALC?", b"CONF", b"CONF?", b"B?;CONF?", b"CONF:SCAL?", b"B?;CONF:ONLY?", b"CONF:VOLT?"]
+    msgs += [b"MEAS", b"MEAS?", b"B?;MEAS?;B?", b"MEAS 1,2", b"A 1;:MEAS;B 1", b"MEAS:VOLT?", b"MEAS:SCAL:VOLT?", b"B?;:MEAS;:MEAS:VOLT?",
+             b"CAL?", b"CALC?;CAL?", b"CALIBRATION?", b"CALCULATE?", b"calc:val?", b"SENS?", b"SENSO?", b"SENSE?;SENSOR?", b"senso?;sens?"]
     # indefinite blocks, rare white space after `?`
     msgs += [b"A #0ab\r\n", b"A #0\x34\x12\xff\x7f\x0d\x0d\n", b"A #0ab\n;B", b"A?\tMAX", b"A?\x0c1", b"A?\t1;B?", b"B?\r", b"A\t1"]
     out = []
